@@ -9,6 +9,9 @@ import (
 	"math"
 	"strings"
 
+	"gonum.org/v1/gonum/blas"
+	"gonum.org/v1/gonum/blas/blas64"
+
 	"gonum.org/v1/gonum/internal/verif/vlib"
 	"gonum.org/v1/gonum/mat"
 )
@@ -137,9 +140,9 @@ func solveFuncCase(t *vlib.T, m, n int, f famInfo, v int, kind string, cfg solve
 
 func genStructured(g *vlib.G) {
 	for _, n := range append(sizesSmall(g), sizesBig(g)...) {
-		for _, kind := range []string{"tri-upper", "tri-lower", "triband-upper", "triband-lower", "tridiag"} {
+		for _, kind := range []string{"tri-upper", "tri-lower", "tri-upper-strided", "tri-lower-strided", "triband-upper", "triband-lower", "triband-upper-strided", "triband-lower-strided", "tridiag"} {
 			ks := []int{0}
-			if kind == "triband-upper" || kind == "triband-lower" {
+			if strings.HasPrefix(kind, "triband") {
 				ks = vlib.Ints(0, n-1)
 				if n > 8 {
 					ks = []int{0, 1, 5, n - 1}
@@ -168,6 +171,9 @@ func genStructured(g *vlib.G) {
 }
 
 func structuredCase(t *vlib.T, n int, kind string, k int, sing string, v int, cfg solveCfg) {
+	// "-strided": the same band matrix stored with padded rows (SetRawTriBand, NaN poison in the padding)
+	strided := strings.HasSuffix(kind, "-strided")
+	kind = strings.TrimSuffix(kind, "-strided")
 	full := genMat("dd", n, n, v)
 	A := newM(n, n)
 	keep := func(i, j int) bool {
@@ -222,6 +228,20 @@ func structuredCase(t *vlib.T, n int, kind string, k int, sing string, v int, cf
 			tk = mat.Lower
 		}
 		tr := mat.NewTriDense(n, tk, d)
+		if strided {
+			// SliceTri view of a larger poisoned triangle: row stride n+2
+			N := n + 2
+			back := make([]float64, N*N)
+			vlib.FillPoison64(back)
+			tr = mat.NewTriDense(N, tk, back).SliceTri(1, 1+n).(*mat.TriDense)
+			for i := 0; i < n; i++ {
+				for j := 0; j < n; j++ {
+					if keep(i, j) {
+						tr.SetTri(i, j, A.at(i, j))
+					}
+				}
+			}
+		}
 		a, direct = tr, tr.SolveTo
 	case "triband-upper", "triband-lower":
 		tk := mat.Upper
@@ -229,6 +249,17 @@ func structuredCase(t *vlib.T, n int, kind string, k int, sing string, v int, cf
 			tk = mat.Lower
 		}
 		tb := mat.NewTriBandDense(n, k, tk, nil)
+		if strided {
+			stride := k + 4
+			data := make([]float64, n*stride)
+			vlib.FillPoison64(data)
+			ul := blas.Upper
+			if tk == mat.Lower {
+				ul = blas.Lower
+			}
+			tb = &mat.TriBandDense{}
+			tb.SetRawTriBand(blas64.TriangularBand{N: n, K: k, Stride: stride, Uplo: ul, Diag: blas.NonUnit, Data: data})
+		}
 		for i := 0; i < n; i++ {
 			for j := 0; j < n; j++ {
 				if keep(i, j) {
